@@ -34,7 +34,7 @@ m = {
     "setup_cmd": "./setup.sh",
     "hooks": {
         "guard": "verif",
-        "enable": "no source hooks are committed to /repo: checks build with `go test -tags verif -overlay /verif/build/overlay.json`, which injects verif-tagged files (bridge package, native flavour re-binding, portable converter copies) generated from /repo's working tree at build time",
+        "enable": "no source hooks are committed to /repo. All checks build with `go test -c -tags verif` against /repo's working tree; the C18 binaries are additionally built with `-overlay` files that overlay/genoverlay.py regenerates from the working tree at every build (internal/cpu/features.go patched to select the avx / sse flavour, the amd64-only files swapped for their portable twins, and an injected package verifbridge that reports which implementation the binary runs)",
         "baseline_off_cmd": "cd /repo && GOFLAGS=-mod=mod GOPROXY=off GOSUMDB=off go test -vet=off -count=1 -timeout 25m -json ./...",
         "source_commits": [],
         "add_only": True,
